@@ -331,6 +331,45 @@ func (d *lsnDrv) scionPkt(s lstepS, payload []byte) []byte {
 	return append([]byte(nil), sb.Bytes()...)
 }
 
+// scmpEcho sends an SCMP echo request as the step's SCION client through the step's underlay socket
+// (the listener goroutine that owns this socket answers it from the same loop, with the same
+// transmit-timestamp bookkeeping as for NTP replies) and waits for the echo reply.
+func (d *lsnDrv) scmpEcho(s lstepS) bool {
+	var scn slayers.SCION
+	scn.FlowID = 1
+	scn.NextHdr = slayers.L4SCMP
+	scn.PathType = empty.PathType
+	scn.Path = empty.Path{}
+	scn.DstIA, scn.SrcIA = addr.IA(0x0001ff0000000110), d.ias[s.a]
+	scn.DstAddrType, scn.SrcAddrType = slayers.T4Ip, slayers.T4Ip
+	scn.RawDstAddr, scn.RawSrcAddr = []byte(d.srv.To4()), d.hosts[s.b]
+	sc := &slayers.SCMP{TypeCode: slayers.CreateSCMPTypeCode(slayers.SCMPTypeEchoRequest, 0)}
+	sc.SetNetworkLayerForChecksum(&scn)
+	sb := gopacket.NewSerializeBuffer()
+	err := gopacket.SerializeLayers(sb, gopacket.SerializeOptions{ComputeChecksums: true, FixLengths: true},
+		&scn, sc, &slayers.SCMPEcho{Identifier: uint16(s.x), SeqNumber: uint16(s.y)}, gopacket.Payload([]byte("c06 echo")))
+	if err != nil {
+		panic(err)
+	}
+	c, dst := d.conn(s)
+	d.drain(c)
+	if _, err := c.WriteToUDP(sb.Bytes(), dst); err != nil {
+		return false
+	}
+	c.SetReadDeadline(time.Now().Add(lsnReadTmo))
+	buf := make([]byte, 2048)
+	n, _, err := c.ReadFromUDP(buf)
+	if err != nil {
+		d.lost = true
+		return false
+	}
+	var rep slayers.SCION
+	if err := rep.DecodeFromBytes(buf[:n], gopacket.NilDecodeFeedback); err != nil || rep.NextHdr != slayers.L4SCMP {
+		return false
+	}
+	return true
+}
+
 func scionPayload(b []byte) (pl []byte, ok bool) {
 	defer func() {
 		if recover() != nil {
@@ -436,7 +475,15 @@ func (d *lsnDrv) runLsnHistory(steps []lstepS) {
 	reps := make([]lsnRep, len(steps))
 	var outs []string
 	nInter, nCross, nCrossInter, nDup, nScion, nIP, nOwn, nOtherSock := 0, 0, 0, 0, 0, 0, 0, 0
+	nEcho := 0
 	for i, s := range steps {
+		if s.mode == 5 {
+			// not an NTP exchange: an SCMP echo through the same listener loop (no row in the observations)
+			if s.lsn == 1 && d.scmpEcho(s) {
+				nEcho++
+			}
+			continue
+		}
 		req := make([]byte, ntp.PacketLen)
 		req[0] = 4<<3 | 3 // version 4, client
 		ref := func() (lsnRep, bool) {
@@ -537,6 +584,7 @@ func (d *lsnDrv) runLsnHistory(steps []lstepS) {
 	add(nScion > 0, "scion")
 	add(nIP > 0, "ip")
 	add(nOtherSock > 0, "othersock")
+	add(nEcho > 0, "scmp-echo")
 	add(nInter > 0 && nCross > 0, "nt")
 	lsnEmit("CASE", "lsn.hist", strings.Join(tags, ","), args, lib.L(outs...))
 }
@@ -625,6 +673,12 @@ func genLsnHistory(r *lib.Rng, n int) []lstepS {
 		}
 		if r.Intn(7) == 0 {
 			s.x = 0
+		}
+		if p.lsn == 1 && r.Intn(12) == 0 {
+			// an SCMP echo request in between, answered by the same listener loop
+			s.mode = 5
+			steps = append(steps, s)
+			continue
 		}
 		own := lastOf(s.ident(), s.lsn)
 		oth := otherOf(s.ident(), s.lsn)
